@@ -1,6 +1,7 @@
 import BlockModes.Thm.C02
 import BlockModes.Thm.C03
 import BlockModes.Thm.C08
+import BlockModes.Thm.C05
 /-
   C01 — decryption inverts encryption, and unpadded operations preserve length.
 
@@ -125,6 +126,14 @@ theorem stream_roundtrip {σ : Type} {K : Core σ} {M : Nat} {ks : Nat → Bytes
   refine ⟨?_, hl⟩
   rw [e2, hl, ← hq, e1]
   exact xorB_cancel_right data _ (by simp)
+
+/-! ### ciphertext stealing -/
+
+/-- CBC-CS1/2/3 one-shot calls: see `C05.cbc_cs_dec_inverts`. -/
+theorem cts_cbc_roundtrip (v : CsVariant) (C : Cipher) (hC : C.Valid) (w₁ w₂ : Nat) (iv m : Bytes)
+    (hiv : iv.length = C.bs) (hm : C.bs ≤ m.length) :
+    C05aux.implCbcDec v C w₂ iv (C05aux.implCbcEnc v C w₁ iv m) = m :=
+  C05.cbc_cs_dec_inverts v C hC w₁ w₂ iv m hiv hm
 
 /-! ### non-vacuity -/
 example : (Toy.cipher [1,2,3,4,5,6,7,8,9,10,11,12,13,14,15,16] 2).Valid ∧
